@@ -26,7 +26,7 @@ R_ALL = ["R1-comment", "R2-blank-lines", "R3-indent", "R4-spacing", "R5-crlf", "
 REQUIRED = {**{r: 10 for r in R_ALL}, "isolated:R5-crlf": 2, "isolated:R10-bom": 2, "isolated:R8-semicolons": 2, "isolated:R6-wrap": 2, "isolated:R7-comma": 2,
             "isolated:R1-comment": 2, "isolated:R11-multifile": 2, "isolated:R9-end-added": 2,
             "crlf+wrapped-params": 5, "bom-on-later-file": 3, "bom-on-first-file": 3, "multifile-end-in-every-file": 3, "multifile-no-trailing-newline": 3, "multifile-end-line-variants": 5, "multifile-crlf-end-line": 3,
-            "text-closes-with-word-ending-in:n": 3, "text-closes-with-word-ending-in:d": 2, "text-closes-with-word-ending-in:E": 2, "string-ends-in-a-comment-without-newline": 5, "master-file-variant": 2, "corpus-base": 20, "generated-base": 20, "snapshot-with-chains": 20}
+            "text-closes-with-word-ending-in:n": 3, "text-closes-with-word-ending-in:d": 2, "text-closes-with-word-ending-in:E": 2, "string-ends-in-a-comment-without-newline": 5, "single-file-no-trailing-newline": 5, "variant-parsed-twice": 20, "master-file-variant": 2, "corpus-base": 20, "generated-base": 20, "snapshot-with-chains": 20}
 ASSUMPTIONS = ["parameter-list wrapping only on non-empty lists; file splits only between top-level statements; string inputs end with a newline",
                "warnings are recorded, not compared; absent parameter list '' == []"]
 DEFAULT_CFG = None
@@ -127,6 +127,9 @@ def make_variant(ctx, text, items, um, force=None):
         return {"mode": "string", "text": new}, applied
     applied.add("R12-file-vs-string")
     if pack in ("file", "file-bom"):
+        if force is None and rng.random() < 0.3 and new.endswith("\n") and not new.endswith("\n\n"):
+            new = new[:-2] if new.endswith("\r\n") else new[:-1]       # the (single) file does not end in a line end
+            ctx.hit("single-file-no-trailing-newline")
         bom = pack == "file-bom"
         if bom:
             applied.add("R10-bom")
@@ -215,6 +218,23 @@ def check_base(ctx, text, um, nvariants, workload, label, isolated=()):
             diff = [k for k in a if a.get(k) != b.get(k)]
             ctx.violate("snapshot-differs:" + "+".join(sorted(x.split("-")[0] for x in applied)) + ":" + ",".join(diff),
                         f"snapshots differ in {diff} after {sorted(applied)}", wit)
+        if ok and s1 == s0 and len(text) < 20000 and ctx.rng.random() < 0.25:
+            # the variant object parsed a second time: whatever its packaging, it still holds its text
+            import warnings  # noqa: PLC0415
+
+            ctx.hit("variant-parsed-twice")
+
+            def again(p1=p1):
+                with warnings.catch_warnings():
+                    warnings.simplefilter("ignore")
+                    p1.parse()
+                return observe(p1, ms)
+
+            ok2, s2 = ctx.guard("variant-second-parse", wit, again)
+            if ok2 and s2 != s0:
+                a, b = json.loads(s0), json.loads(s2)
+                diff = [k for k in a if a.get(k) != b.get(k)]
+                ctx.violate("snapshot-differs-after-second-parse:" + variant["mode"] + ":" + ",".join(diff), f"the {variant['mode']}-based object parsed again: snapshots differ in {diff}", wit)
         if len(ctx.samples) < 3 and applied and len(text) < 1500:
             ctx.sample({"base": text, "variant": variant, "applied": sorted(applied)})
         _ = mech
